@@ -369,7 +369,7 @@ pub fn child(parts: &[&str]) -> Value {
     let shard: usize = parts[2].parse().unwrap();
     let nshards: usize = parts[3].parse().unwrap();
     let bound: usize = parts[4].parse().unwrap();
-    let cfg = vsched::Config { preemption_bound: bound, max_steps: 5_000, exec_timeout: Duration::from_secs(30), record_trace: false, max_executions: u64::MAX };
+    let cfg = vsched::Config { preemption_bound: bound, max_steps: 5_000, exec_timeout: Duration::from_secs(30), record_trace: false, max_executions: u64::MAX, count_all_deviations: false };
     let p2 = prog.clone();
     let body = move || execution(&p2);
     if shard == 0 {
